@@ -324,11 +324,7 @@ def object_dependent_required(V):
 
 
 # ------------------------------------------------------------------ compositions
-@ob('composition', marks=['accept', 'reject'], budget=(100, 400), exhaustive=False,
-    bounds='anyOf / oneOf / allOf of two sub-schemas from 10 (thorough: nested once more), optionally beside a "type"; instance from 14 '
-           'JSON values + small lists / dicts')
-def composition(V):
-    op = V.pick('op', ['anyOf', 'oneOf', 'allOf'])
+def _composition(V, op):
     a, b_ = V.pick('A', SUB), V.pick('B', SUB)
     s = {op: [a, b_]}
     if V.thorough and V.bool('nested'):
@@ -341,3 +337,9 @@ def composition(V):
         return
     x = V.pick('x', ANYV + [[1, 2], ['a'], {'a': 'x'}, {}, 'ab', -1])
     check_value(V, s, b[1], x, 'composition:' + op)
+
+
+for _op in ('anyOf', 'oneOf', 'allOf'):
+    ob('composition/' + _op, marks=['accept', 'reject'], budget=(100, 400), exhaustive=(True, False),
+       bounds='%s of two sub-schemas from 10 (thorough: nested once more inside anyOf / oneOf / allOf with a third); instance from 14 '
+              'JSON values + small lists / dicts' % _op)((lambda o: lambda V: _composition(V, o))(_op))
